@@ -1,8 +1,10 @@
 //@unit props=C07,C01
 // Unit alu_ops — the `execute` bodies of the 25 arithmetic / comparison / bitwise / shift opcodes of
-// src/opcode/arithmetic.rs and src/opcode/logic.rs over an ABSTRACT VM, against property C07 ("each path computes
-// what a concrete EVM computes ... for every arithmetic, comparison, bitwise, shift ... instruction"; mechanism
-// "each opcode pops its operands in EVM order and pushes one node recording the operation").
+// src/opcode/arithmetic.rs and src/opcode/logic.rs, and of PUSH0 / PUSHn (src/opcode/memory.rs, with
+// PushN::bytes_as_word: the pushed constant is the big-endian value of the immediate), over an ABSTRACT VM,
+// against property C07 ("each path computes what a concrete EVM computes ... for every arithmetic, comparison,
+// bitwise, shift ... push ... instruction"; mechanisms "each opcode pops its operands in EVM order and pushes one
+// node recording the operation", "PUSHn decodes big-endian immediates").
 //
 // What is under contract here is OPERAND ORDER and SHAPE, per opcode:
 //   * the operands are popped in EVM order: first popped = top of the stack = the EVM's first operand `a`
@@ -42,7 +44,9 @@ use std::sync::Arc;
 //@dropped arithmetic.rs / logic.rs: every opcode's min_gas_cost / arg_count / as_text_code (String) / as_byte (as_byte is under contract in unit disassemble); the #[cfg(test)] modules
 //@dropped the real VM (src/vm/mod.rs: VecDeque<VMThread>, VMState, InstructionStream, watchdog): VM::{instruction_pointer, stack_handle} are A-CALLEE contracts over a stand-in VM that holds the current thread's instruction pointer and stack, the code length and the builder; VM::build is extracted
 //@dropped ValueBuilder::{symbolic_exec, known} (src/vm/mod.rs -> RSV::new / RSV::new_known_value): A-CALLEE contracts here, the bodies are under contract in unit value_size (C18.vs.builder_symbolic_exec.built_under_the_limit, C18.vs.builder_known.kept)
-//@dropped PushN::execute / PushN::bytes_as_word / Push0::execute (src/opcode/memory.rs): see the note at the end of this file
+//@dropped memory.rs: everything except Push0::execute, PushN::execute, PushN::bytes_as_word (PushN::{new, encode, as_byte, bytes_data}: unit disassemble, C10; DupN/SwapN: unit stack); known.rs: everything except KnownWord::{from_le_bytes, from_be_bytes} (unit known_word)
+//@dropped PushN::execute is verified against an A-CALLEE copy of bytes_as_word's contract (opaque KnownWord of the value-tree prelude); the real bytes_as_word body is verified separately against the real KnownWord (mod push_word); the two are linked by name and identical contract text, not by the verifier
+//@dropped `<&[u8]>::try_into::<[u8; 32]>().expect(..)` in bytes_as_word: R-CALL stand-in slice_to_array32 whose precondition (length 32) is the no-panic obligation
 //@dropped what the pushed node EVALUATES to when its operands are constants: units fold_arms + known_word; agreement over whole programs: not decided by this family
 //@include common/value_tree_items.rs
 //@include common/ethnum_prelude.rs
@@ -458,7 +462,8 @@ impl KnownWord {
     pub closed spec fn v(self) -> nat { u(self.value) }
 }
 // A-ETHNUM: `size_of::<KnownWord>()` is 32: KnownWord is one U256, ethnum's U256 is `[u128; 2]` (the stand-in has the same
-// layout; Verus checks the directive against the stand-in at compile time)
+// layout; the directive itself is an assumption to Verus, but rustc unifies `[u8; mem::size_of::<KnownWord>()]` in
+// bytes_as_word with the `[u8; 32]` of slice_to_array32 / from_le_bytes, so a different size of the stand-in is a type error)
 global layout KnownWord is size == 32;
 // A-ETHNUM: what `le_val` (uninterpreted in the shared prelude: "value of a little-endian 32-byte array") is, byte by byte
 pub broadcast axiom fn le_val_is_le_value(b: [u8; 32]) ensures #[trigger] le_val(b) == le_value(b@);
